@@ -322,6 +322,15 @@ func (c *ConsulProvider) Cleanup(providerTypeChange bool, _ map[string]interface
 	return nil
 }
 
+// SharesStateWith reports whether other is a built-in provider over the same
+// state store entry (same private key and root cert settings, hence the same
+// id): cleaning up one of the two would take the private key and root away
+// from the other.
+func (c *ConsulProvider) SharesStateWith(other Provider) bool {
+	o, ok := other.(*ConsulProvider)
+	return ok && o != nil && o.id == c.id
+}
+
 // Sign returns a new certificate valid for the given SpiffeIDService
 // using the current CA.
 func (c *ConsulProvider) Sign(csr *x509.CertificateRequest) (string, error) {
